@@ -185,3 +185,23 @@ Example C13_character_prefix_example :
   forallb plain_rune n = true /\ forallb CP.no_colon n = true /\ forallb plain_rune t = true /\ no_edge_space (n ++ 58%N :: t) /\
   count_re_space t = 2%nat.
 Proof. vm_compute. repeat split; reflexivity. Qed.
+
+(* the same without the edge hypothesis: blanks at either end of the line are trimmed from the text,
+   the character attribute starts at 0 and ends where the prefix ends in the trimmed text *)
+Theorem C13_character_prefix_with_edge_blanks : forall n t,
+  forallb plain_rune n = true -> forallb CP.no_colon n = true -> forallb plain_rune t = true ->
+  let T := n ++ 58%N :: t in
+  let L := (Z.of_nat (length T) - Z.of_nat (length (trim_left T)))%Z in
+  parse_markup T =
+  Some (trim_space T,
+        [{| aname := STR "character"; apos := 0;
+            alen := Z.max 0 (Z.min (Z.of_nat (S (length n) + count_re_space t) - L) (Z.of_nat (length (trim_space T))));
+            asrc := 0; aprops := [(STR "name", MStr (trim_space n))] |}]).
+Proof. exact CP.character_prefix_general. Qed.
+Print Assumptions C13_character_prefix_with_edge_blanks.
+
+Example C13_character_prefix_edge_example :
+  option_map (fun r => (fst r, map (fun a => (aname a, apos a, alen a, aprops a)) (snd r)))
+    (parse_markup (STR "  Bob:  hi  ")) =
+  Some (STR "Bob:  hi", [(STR "character", 0, 6, [(STR "name", MStr (STR "Bob"))])]%Z).
+Proof. vm_compute. reflexivity. Qed.
